@@ -45,9 +45,9 @@ def main():
         caught = [p for p, r in results.items() if r["exit"] == 1 and r["violation_line"]]
         meta = {
             "id": sid,
-            "property": agent.get("property", prop),
-            "breaks": agent.get("summary"),
-            "needs_to_manifest": agent.get("needs"),
+            "property": prop,
+            "breaks": agent.get("summary") or agent.get("what_it_breaks"),
+            "needs_to_manifest": agent.get("needs") or agent.get("needs_to_manifest"),
             "why_existing_tests_pass": agent.get("why_tests_pass"),
             "confirmed": confirm,
             "what_was_run": "tools/confirm_seed.sh in a scratch worktree (demo passes on the clean tree, cargo test passes with the patch, demo fails with the patch); "
